@@ -206,17 +206,38 @@ func c08ObjInput(c *c08Case, env *fw.Env, v *fw.V) {
 		inRef = "Ref_order"
 	}
 	s := g.Add(gen.Start, "start", "")
-	a := g.Add(gen.Task, "A", "")
+	// inner-writer / inner-reader: the storing (reading) task lives inside an embedded sub-process W, the other
+	// one in the process itself
+	scopeA, scopeB := "", ""
+	var w *gen.Node
+	if c.Route == "inner-writer" || c.Route == "inner-reader" {
+		w = g.Add(gen.Sub, "W", "")
+		if c.Route == "inner-writer" {
+			scopeA = "W"
+		} else {
+			scopeB = "W"
+		}
+	}
+	a := g.Add(gen.Task, "A", scopeA)
 	a.Outputs = []string{name + "=" + id}
-	b := g.Add(gen.Task, "B", "")
+	b := g.Add(gen.Task, "B", scopeB)
 	b.Inputs = []string{name + "=" + inRef, "other=other"}
 	b.Writes = []string{"again"}
 	xm := g.Add(gen.Xor, "xm", "")
 	xs := g.Add(gen.Xor, "xs", "")
 	e := g.Add(gen.End, "end", "")
 	g.Connect(s, xm, nil)
-	g.Connect(xm, a, nil)
 	prev := a
+	if c.Route == "inner-writer" {
+		ws := g.Add(gen.Start, "W_s", "W")
+		we := g.Add(gen.End, "W_e", "W")
+		g.Connect(ws, a, nil)
+		g.Connect(a, we, nil)
+		g.Connect(xm, w, nil)
+		prev = w
+	} else {
+		g.Connect(xm, a, nil)
+	}
 	sub := func(idp string) *gen.Node {
 		sp := g.Add(gen.Sub, idp, "")
 		is := g.Add(gen.Start, idp+"_s", sp.ID)
@@ -246,8 +267,17 @@ func c08ObjInput(c *c08Case, env *fw.Env, v *fw.V) {
 		g.Connect(m, j, nil)
 		prev = j
 	}
-	g.Connect(prev, b, nil)
-	g.Connect(b, xs, nil)
+	if c.Route == "inner-reader" {
+		ws := g.Add(gen.Start, "W_s", "W")
+		we := g.Add(gen.End, "W_e", "W")
+		g.Connect(ws, b, nil)
+		g.Connect(b, we, nil)
+		g.Connect(prev, w, nil)
+		g.Connect(w, xs, nil)
+	} else {
+		g.Connect(prev, b, nil)
+		g.Connect(b, xs, nil)
+	}
 	g.Connect(xs, xm, &gen.Cond{Kind: "var", Var: "again", Op: ">", Val: 0})
 	d := g.Connect(xs, e, nil)
 	xs.Default = d.ID
@@ -402,7 +432,7 @@ func c08Cases(tier string, seed uint64) []fw.Case {
 		}
 	}
 	// a stored data output read through the data input of a later task
-	for _, between := range []string{"none", "task", "sub", "side"} {
+	for _, between := range []string{"none", "task", "sub", "side", "inner-writer", "inner-reader"} {
 		for _, names := range []string{"id-equals-name", "id-differs", "via-reference"} {
 			for _, loop := range []bool{false, true} {
 				c := c08Case{Kind: "object-input", Route: between, Names: names, Loop: loop, Reps: 1}
@@ -1005,7 +1035,7 @@ func init() {
 			v.Nontrivial = true
 			return v
 		},
-		Rule:        "answer histories per request: 1..3 Do calls x sequential / concurrent behind a barrier x payload {results, data objects, both} x names {declared, undeclared, mixed} x hooks off/on (concurrent ones repeated 30/300 times), checked with a porcupine write-once-register model over the Do call/return history and the observed effective marker, plus blocked-caller census, declared-only storage, downstream visibility (gateway branch, next task's properties and data inputs) and late Do; 1..4 answers arriving after the instance's context was cancelled (none may block); a catalogue of ~100 values of every kind (integer widths, floats, strings, booleans, byte slices, nested maps / slices / structs, pointers, nil) answered as declared result and as declared data output, read back in canonical form from the variables and the next task's data inputs; error histories: handler {none, skip, exit, retry n=0..3} x success on attempt 0..4 x extra Do; retry answers whose budget differs from answer to answer (all budget sequences of length 2..3 over 0..3; the k-th failing answer with budget b re-requests only while k-1 < b) x success attempt, followed by a second always-failing task on the same token (requested 1..budget+1 times); all cases non-trivial; distinct = descriptor hash; inputs scenario with typed properties (text, float, integer, boolean) bound by reference to a stored result; object-input scenario: a stored data output read through the data input of a later task with nothing / a task / a sub-process between them or a sub-process on a parallel branch, id = name, id differing, or read through a data object reference, three rounds in a loop",
+		Rule:        "answer histories per request: 1..3 Do calls x sequential / concurrent behind a barrier x payload {results, data objects, both} x names {declared, undeclared, mixed} x hooks off/on (concurrent ones repeated 30/300 times), checked with a porcupine write-once-register model over the Do call/return history and the observed effective marker, plus blocked-caller census, declared-only storage, downstream visibility (gateway branch, next task's properties and data inputs) and late Do; 1..4 answers arriving after the instance's context was cancelled (none may block); a catalogue of ~100 values of every kind (integer widths, floats, strings, booleans, byte slices, nested maps / slices / structs, pointers, nil) answered as declared result and as declared data output, read back in canonical form from the variables and the next task's data inputs; error histories: handler {none, skip, exit, retry n=0..3} x success on attempt 0..4 x extra Do; retry answers whose budget differs from answer to answer (all budget sequences of length 2..3 over 0..3; the k-th failing answer with budget b re-requests only while k-1 < b) x success attempt, followed by a second always-failing task on the same token (requested 1..budget+1 times); all cases non-trivial; distinct = descriptor hash; inputs scenario with typed properties (text, float, integer, boolean) bound by reference to a stored result; object-input scenario: a stored data output read through the data input of a later task with nothing / a task / a sub-process between them, a sub-process on a parallel branch, or the storing / the reading task inside a sub-process, id = name, id differing, or read through a data object reference, three rounds in a loop",
 		Exhaustive:  func(string) bool { return true },
 		Assumptions: []string{"each Do carries a unique marker for a declared field so the effective answer identifies the call that won"},
 	})
